@@ -156,6 +156,13 @@ Qed.
 Definition chunk_len (b : list byte) : Z := 16 + le_decode (firstn 8 (skipn 8 b)).
 Definition chunk_type (b : list byte) : Z := le_decode (firstn 4 b).
 Definition chunk_version (b : list byte) : Z := le_decode (firstn 1 (skipn 4 b)).
+Definition chunk_padding (b : list byte) : Z := le_decode (firstn 1 (skipn 5 b)).
+Definition chunk_compression (b : list byte) : Z := le_decode (firstn 1 (skipn 6 b)).
+Definition chunk_pad_bytes (b : list byte) : list byte :=
+  firstn (Z.to_nat (chunk_padding b)) (skipn (Z.to_nat (chunk_len b - chunk_padding b)) b).
+(* compression field 0, declared padding not larger than the chunk body, every padding byte 0 *)
+Definition chunk_clean (b : list byte) : bool :=
+  (chunk_compression b =? 0) && (chunk_padding b <=? chunk_len b - 16) && forallb (fun c => c =? 0) (chunk_pad_bytes b).
 
 Lemma firstn_app_le {A} (n : nat) (a b : list A) : (n <= length a)%nat -> firstn n (a ++ b) = firstn n a.
 Proof. intros. rewrite firstn_app. replace (n - length a)%nat with 0%nat by lia. simpl. apply app_nil_r. Qed.
@@ -174,6 +181,11 @@ Proof.
   revert l; induction y; intros l; simpl; [reflexivity|].
   destruct l; [destruct x; reflexivity|apply IHy].
 Qed.
+
+Lemma firstn_exact {A} (a b : list A) n : length a = n -> firstn n (a ++ b) = a.
+Proof. intros <-. rewrite firstn_app, Nat.sub_diag, firstn_all. simpl. apply app_nil_r. Qed.
+Lemma skipn_exact {A} (a b : list A) n : length a = n -> skipn n (a ++ b) = b.
+Proof. intros <-. rewrite skipn_app, Nat.sub_diag, skipn_all. reflexivity. Qed.
 
 Lemma len_length {A} (l : list A) n : len l = Z.of_nat n -> length l = n.
 Proof. unfold len. lia. Qed.
@@ -200,7 +212,8 @@ Lemma read_chunk_frame o h st eof s st' eof' s' :
   16 <= len b /\ chunk_len b <= len b /\ 16 <= chunk_len b /\
   s_bytes s' = skipn (Z.to_nat (chunk_len b)) b /\
   s_avail s' = s_avail s - chunk_len b /\ 0 <= s_avail s' /\
-  eof' = (eof || ((chunk_version b =? 0) && (chunk_type b =? ChunkType_EndOfFile))).
+  eof' = (eof || ((chunk_version b =? 0) && (chunk_type b =? ChunkType_EndOfFile))) /\
+  eof = false /\ chunk_clean b = true.
 Proof.
   unfold read_chunk. intros Hok H.
   destruct eof; [discriminate|].
@@ -211,12 +224,13 @@ Proof.
   inv_bind H. destruct a0 as [ty d1]. apply rd_inv in Ha. destruct Ha as [-> [_ Hty]].
   inv_bind H. destruct a0 as [version d2]. apply rd_inv in Ha. destruct Ha as [-> [_ Hver]].
   inv_bind H. destruct a0 as [padding d3]. apply rd_inv in Ha. destruct Ha as [-> [_ Hpad]].
-  inv_bind H. destruct a0 as [compression d4]. apply rd_inv in Ha. destruct Ha as [-> [_ _]].
+  inv_bind H. destruct a0 as [compression d4]. apply rd_inv in Ha. destruct Ha as [-> [_ Hcomp]].
   inv_bind H. destruct a0 as [flags d5]. apply rd_enum8_inv in Ha. destruct Ha as [Ha _]. apply rd_inv in Ha. destruct Ha as [-> [_ _]].
   inv_bind H. destruct a0 as [file_length d6]. apply rd_inv in Ha. destruct Ha as [_ [_ Hfl]].
   repeat rewrite skipn_skipn' in Hfl. cbn [Nat.add] in Hfl.
   repeat rewrite skipn_skipn' in Hpad. cbn [Nat.add] in Hpad.
   repeat rewrite skipn_skipn' in Hver. cbn [Nat.add] in Hver.
+  repeat rewrite skipn_skipn' in Hcomp. cbn [Nat.add] in Hcomp.
   assert (Hlen16 : length d = 16%nat) by (apply len_length; exact Hd).
   rewrite Hb in Hok. destruct (bytes_ok_app_inv _ _ Hok) as [Hokd Hok1].
   assert (Hpadr : 0 <= padding < 256).
@@ -224,7 +238,7 @@ Proof.
   assert (Hflr : 0 <= file_length).
   { subst file_length. pose proof (le_decode_field_range 8 8 d Hokd) as R. lia. }
   destruct (file_length <? padding) eqn:E1; [discriminate|]. apply Z.ltb_ge in E1.
-  destruct (negb (compression =? 0)); [discriminate|].
+  destruct (compression =? 0) eqn:Ecomp; cbn [negb] in H; [|discriminate]. apply Z.eqb_eq in Ecomp.
   destruct (remaining_bytes s1 <? file_length) eqn:E2; [discriminate|]. apply Z.ltb_ge in E2. unfold remaining_bytes in E2.
   inv_bind H. destruct a0 as [cd s2].
   apply make_decoder_inv in Ha; [|lia]. destruct Ha as [Hb2 [Hcd [Hav2 Hav2']]].
@@ -232,7 +246,7 @@ Proof.
   destruct rest; [|discriminate].
   inv_bind H. destruct a0 as [pd s3].
   apply make_decoder_inv in Ha; [|lia]. destruct Ha as [Hb3 [Hpd [Hav3 Hav3']]].
-  match type of H with (if ?c then _ else _) = _ => destruct c; [|discriminate] end.
+  match type of H with (if ?c then _ else _) = _ => destruct c eqn:Ezero; [|discriminate] end.
   inversion H; subst st'' eof' s3; clear H.
   cbv zeta.
   assert (Ecl : chunk_len (s_bytes s) = 16 + file_length).
@@ -258,7 +272,18 @@ Proof.
   { destruct (Z.eq_dec padding 0) as [->|Hp].
     - destruct (Z.eq_dec file_length 0) as [->|Hf]; lia.
     - lia. }
-  reflexivity.
+  split; [reflexivity|]. split; [reflexivity|].
+  assert (Ecp : chunk_padding (s_bytes s) = padding).
+  { unfold chunk_padding. rewrite Hb. rewrite field_of_prefix by lia. symmetry. exact Hpad. }
+  assert (Ecc : chunk_compression (s_bytes s) = 0).
+  { unfold chunk_compression. rewrite Hb. rewrite field_of_prefix by lia. rewrite <- Hcomp. exact Ecomp. }
+  unfold chunk_clean, chunk_pad_bytes. rewrite Ecc, Ecp, Ecl. cbn [Z.eqb andb].
+  replace (padding <=? 16 + file_length - 16) with true by (symmetry; apply Z.leb_le; lia). cbn [andb].
+  rewrite Hb, Hb2, Hb3.
+  replace (d ++ cd ++ pd ++ s_bytes s') with ((d ++ cd) ++ pd ++ s_bytes s') by (repeat rewrite <- app_assoc; reflexivity).
+  rewrite skipn_exact by (rewrite app_length; unfold len in *; lia).
+  rewrite firstn_exact by (unfold len in *; lia).
+  exact Ezero.
 Qed.
 
 Definition is_eof_chunk (b : list byte) : bool := (chunk_version b =? 0) && (chunk_type b =? ChunkType_EndOfFile).
@@ -269,6 +294,7 @@ Inductive framed : list byte -> bool -> bool -> Prop :=
 | framed_cons b e e' :
     16 <= len b -> 16 <= chunk_len b -> chunk_len b <= len b ->
     framed (skipn (Z.to_nat (chunk_len b)) b) (e || is_eof_chunk b) e' ->
+    e = false -> chunk_clean b = true ->
     framed b e e'.
 
 Lemma remaining_le0 s : (remaining_bytes s <=? 0) = true -> s_bytes s = [].
@@ -289,7 +315,7 @@ Proof.
     + inversion H; subst. rewrite (remaining_le0 _ E). split; [constructor|left; reflexivity].
     + inv_bind H. destruct a as [[st1 eof1] s1].
       pose proof (read_chunk_frame _ _ _ _ _ _ _ _ Hok Ha) as F. cbv zeta in F.
-      destruct F as [F1 [F2 [F3 [F4 [F5 [F6 F7]]]]]].
+      destruct F as [F1 [F2 [F3 [F4 [F5 [F6 [F7 [F8 F9]]]]]]]].
       assert (Hok1 : bytes_ok (s_bytes s1)) by (rewrite F4; apply bytes_ok_skipn; exact Hok).
       destruct (IH _ _ _ _ _ _ _ Hok1 H) as [G1 G2].
       split.
@@ -392,11 +418,6 @@ Proof.
   rewrite (Z.mod_small (8 * ((n + 7) / 8) - n)) by lia.
   rewrite Z.mod_small by lia. lia.
 Qed.
-
-Lemma firstn_exact {A} (a b : list A) n : length a = n -> firstn n (a ++ b) = a.
-Proof. intros <-. rewrite firstn_app, Nat.sub_diag, firstn_all. simpl. apply app_nil_r. Qed.
-Lemma skipn_exact {A} (a b : list A) n : length a = n -> skipn n (a ++ b) = b.
-Proof. intros <-. rewrite skipn_app, Nat.sub_diag, skipn_all. reflexivity. Qed.
 
 Definition payload_ok (ty : Z) (p : list byte) : Prop :=
   0 <= ty < 4294967296 /\ bytes_ok p /\ len p < 4611686018427387904.
@@ -644,3 +665,904 @@ Proof.
   pose proof (framed_prefix_noeof B HB ChunkType_EndOfFile [] (n - 48)%nat eof eof_payload_ok Hlt F) as Q.
   subst eof. cbn [negb]. discriminate.
 Qed.
+
+(* ================================================================================================ C18: framing *)
+
+Definition wf_chunk (b : list byte) : Prop :=
+  16 <= len b /\ 16 <= chunk_len b /\ chunk_len b <= len b /\ chunk_clean b = true.
+
+(* complete, clean chunks, none of them an EOF chunk, followed by exactly one EOF chunk, and nothing after it *)
+Inductive chunk_file : list byte -> Prop :=
+| cf_last b : wf_chunk b -> chunk_len b = len b -> is_eof_chunk b = true -> chunk_file b
+| cf_more b : wf_chunk b -> is_eof_chunk b = false -> chunk_file (skipn (Z.to_nat (chunk_len b)) b) -> chunk_file b.
+
+Lemma framed_chunk_file b e e' : framed b e e' -> e = false -> e' = true -> chunk_file b.
+Proof.
+  induction 1 as [e|b e e' H1 H2 H3 Hrest IH He Hc]; intros E1 E2.
+  - subst. discriminate.
+  - subst e. cbn [orb] in *.
+    destruct (is_eof_chunk b) eqn:Q.
+    + (* nothing may follow the EOF chunk *)
+      inversion Hrest as [e0 Hnil|b0 e0 e1 _ _ _ _ Hfalse _]; subst.
+      * apply cf_last; [repeat split; assumption| |exact Q].
+        assert (L : len (skipn (Z.to_nat (chunk_len b)) b) = 0) by (rewrite <- Hnil; reflexivity).
+        rewrite len_skipn in L. rewrite Z2Nat.id in L by lia. lia.
+      * discriminate.
+    + apply cf_more; [repeat split; assumption|exact Q|]. apply IH; [reflexivity|exact E2].
+Qed.
+
+Lemma read_file_header_ok d h : read_file_header d = (h, true) ->
+  firstn 8 d = ovmb_magic /\ nth 9 d 0 = 1 /\ is_valid_TopoType (nth 11 d 0) = true /\
+  forallb (fun c => c =? 0) (firstn 4 (skipn 12 d)) = true /\
+  h_hv h = 1 /\ h_dim h = nth 10 d 0 /\ h_topo h = nth 11 d 0.
+Proof.
+  unfold read_file_header.
+  destruct (list_eqb (firstn 8 d) ovmb_magic) eqn:E1; cbn [negb]; [|intros H; inversion H].
+  destruct (nth 9 d 0 =? 1) eqn:E2; cbn [negb]; [|intros H; inversion H].
+  destruct (is_valid_TopoType (nth 11 d 0)) eqn:E3; cbn [negb]; [|intros H; inversion H].
+  destruct (forallb (fun c => c =? 0) (firstn 4 (skipn 12 d))) eqn:E4; cbn [negb]; [|intros H; inversion H].
+  intros H. inversion H; subst; clear H. cbn [h_hv h_dim h_topo].
+  apply list_eqb_eq in E1. apply Z.eqb_eq in E2. repeat split; try assumption; reflexivity.
+Qed.
+
+(* the 48 header bytes of the stream as the reader sees them *)
+Lemma read_header_decoder s h s1 : read_header s = (h, true, s1) ->
+  read_file_header (firstn 48 (s_bytes s)) = (h, true).
+Proof.
+  unfold read_header. destruct (make_decoder ovmb_size_FileHeader s) as [[d s']|r st|w] eqn:E; [|intros H; inversion H|intros H; inversion H].
+  destruct (read_file_header d) as [h0 ok0] eqn:E2. intros H. inversion H; subst.
+  apply make_decoder_inv in E; [|unfold ovmb_size_FileHeader; lia]. destruct E as [Hb [Hd _]].
+  rewrite Hb. rewrite firstn_exact by (unfold ovmb_size_FileHeader, len in Hd; lia). exact E2.
+Qed.
+
+(* C18_framing, file level: a file that reads Ok has the magic, header version 1, zero reserved bytes, a valid topology type,
+   the vertex dimension of the mesh, and after the header a sequence of complete chunks with zero compression field and zero
+   padding bytes, of which exactly the last one is the EOF chunk *)
+Theorem ok_implies_framing o bytes m :
+  bytes_ok bytes -> decode_impl o bytes = ROk m ->
+  48 <= len bytes /\ firstn 8 bytes = ovmb_magic /\ nth 9 bytes 0 = 1 /\
+  forallb (fun c => c =? 0) (firstn 4 (skipn 12 bytes)) = true /\
+  is_valid_TopoType (nth 11 bytes 0) = true /\ nth 10 bytes 0 = o_dim o /\
+  chunk_file (skipn 48 bytes).
+Proof.
+  intros Hok. unfold decode_impl, decode_stream.
+  destruct (read_header _) as [[h ok] s1] eqn:Eh.
+  destruct (compatible o h) eqn:Ec; cbn [negb]; [|discriminate].
+  destruct ok; cbn [negb]; [|discriminate].
+  pose proof (read_header_decoder _ _ _ Eh) as Hd. cbn [s_bytes] in Hd.
+  apply read_header_inv in Eh; [|reflexivity]. cbn [s_bytes s_avail] in Eh. destruct Eh as [H48 [Hb1 _]].
+  destruct (chunk_loop _ o h init_rst false s1) as [[st eof]|r0 st|w] eqn:EL; [|discriminate|discriminate].
+  destruct eof; cbn [negb]; [|discriminate].
+  intros _.
+  assert (Hok1 : bytes_ok (s_bytes s1)) by (rewrite Hb1; apply bytes_ok_skipn; exact Hok).
+  apply chunk_loop_framed in EL; [|exact Hok1]. destruct EL as [F _]. rewrite Hb1 in F.
+  apply read_file_header_ok in Hd. destruct Hd as [D1 [D2 [D3 [D4 [D5 [D6 D7]]]]]].
+  assert (N : forall i, (i < 48)%nat -> nth i (firstn 48 bytes) 0 = nth i bytes 0).
+  { intros i Hi. rewrite <- (firstn_skipn 48 bytes) at 2. rewrite app_nth1; [reflexivity|]. rewrite firstn_length. unfold len in H48. lia. }
+  rewrite !N in * by lia.
+  assert (F8 : firstn 8 (firstn 48 bytes) = firstn 8 bytes) by (rewrite firstn_firstn; reflexivity).
+  assert (F4 : firstn 4 (skipn 12 (firstn 48 bytes)) = firstn 4 (skipn 12 bytes)).
+  { rewrite <- (firstn_skipn 48 bytes) at 2. symmetry. apply field_of_prefix. rewrite firstn_length. unfold len in H48. lia. }
+  rewrite F8 in D1. rewrite F4 in D4.
+  unfold compatible in Ec. apply andb_true_iff in Ec. destruct Ec as [Ec _]. apply andb_true_iff in Ec. destruct Ec as [Ec _].
+  apply andb_true_iff in Ec. destruct Ec as [_ Ec]. apply Z.eqb_eq in Ec. rewrite D6 in Ec.
+  repeat split; try assumption.
+  apply (framed_chunk_file _ _ _ F); reflexivity.
+Qed.
+
+(* C18_framing, span level (validate_span): a span is accepted only if it resumes where the previous one ended and stays
+   within the total *)
+Lemma validate_span_ok total read first count :
+  0 <= read <= total -> total < two64 ->
+  validate_span total read first count = Ret tt -> first = read /\ count <= total - read.
+Proof.
+  intros Hr Ht. unfold validate_span.
+  destruct (first =? read) eqn:E1; cbn [negb]; [|discriminate]. apply Z.eqb_eq in E1.
+  unfold wrap64. rewrite Z.mod_small by lia.
+  destruct (total - read <? count) eqn:E2; [discriminate|]. apply Z.ltb_ge in E2. auto.
+Qed.
+
+(* C18_framing, handle level: a contained handle (+ handle_offset, uint64 wrap) is accepted only below the limit *)
+Lemma mk_handle_ok off lim x v : mk_handle off lim x = Ret v ->
+  wrap64 (x + off) < lim /\ v = from_unsigned (wrap64 (x + off)).
+Proof.
+  unfold mk_handle. destruct (lim <=? wrap64 (x + off)) eqn:E; [discriminate|]. apply Z.leb_gt in E.
+  intros H. inversion H. auto.
+Qed.
+
+(* ================================================================================================ C18: write side *)
+
+(* ovmb_write on a stream that accepts only k bytes, or on a mesh with pending deletions, never reports Ok *)
+Lemma write_failure_reported pending dim topo m k :
+  pending = true \/ k < len (encode dim topo m) -> fst (write_result pending dim topo m k) <> WOk.
+Proof.
+  unfold write_result. intros [->|H]; [simpl; discriminate|].
+  destruct pending; [simpl; discriminate|].
+  apply Z.ltb_lt in H. rewrite H. simpl. discriminate.
+Qed.
+
+Lemma write_complete dim topo m k :
+  len (encode dim topo m) <= k -> write_result false dim topo m k = (WOk, encode dim topo m).
+Proof. unfold write_result. intros H. apply Z.ltb_ge in H. rewrite H. reflexivity. Qed.
+
+(* ================================================================================================ examples *)
+
+Definition bytes_okb (l : list byte) : bool := forallb (fun b => (0 <=? b) && (b <? 256)) l.
+Lemma bytes_okb_ok l : bytes_okb l = true -> bytes_ok l.
+Proof.
+  unfold bytes_okb, bytes_ok. intros H. apply Forall_forall. intros x Hx.
+  rewrite forallb_forall in H. specialize (H x Hx). apply andb_true_iff in H. destruct H as [A B].
+  apply Z.leb_le in A. apply Z.ltb_lt in B. unfold byte_ok. lia.
+Qed.
+Definition smallb (l : list byte) : bool := bytes_okb l && (len l <? 4611686018427387904).
+Lemma smallb_small l : smallb l = true -> small l.
+Proof. unfold smallb, small. intros H. apply andb_true_iff in H. destruct H as [A B]. split; [apply bytes_okb_ok; exact A|apply Z.ltb_lt; exact B]. Qed.
+
+(* one tetrahedron with a position, an int vertex property, a bool halfedge property and a string mesh property *)
+Definition ex_tet : meshfile :=
+  {| m_nv := 4;
+     m_pos := [[4607182418800017408; 4611686018427387904; 4613937818241073152]; [0; 0; 0]; [0; 9223372036854775808; 0]; [9221120237041090561; 0; 1]];
+     m_edges := [(0, 1); (1, 2); (2, 0); (0, 3); (1, 3); (2, 3)];
+     m_faces := [[0; 2; 4]; [0; 8; 7]; [2; 10; 9]; [4; 6; 11]];
+     m_cells := [[1; 2; 4; 6]];
+     m_props := [ {| p_ent := 0; p_name := [97]; p_tname := bytes_of_string "i32"; p_def := [7; 0; 0; 0];
+                     p_vals := [[1; 0; 0; 0]; [2; 0; 0; 0]; [7; 0; 0; 0]; [255; 255; 255; 255]] |};
+                  {| p_ent := 4; p_name := [98; 98]; p_tname := bytes_of_string "b"; p_def := [0];
+                     p_vals := [[1]; [0]; [1]; [1]; [0]; [0]; [0]; [0]; [0]; [1]; [0]; [1]] |};
+                  {| p_ent := 6; p_name := [109]; p_tname := bytes_of_string "s32"; p_def := [];
+                     p_vals := [[104; 101; 108; 108; 111]] |} ] |}.
+
+Definition ex_opts : opts := {| o_mesh := MPoly; o_check := true; o_bu := true; o_dim := 3 |}.
+
+Example ex_tet_wf : wf_file 3 ex_tet.
+Proof. vm_compute. reflexivity. Qed.
+Example ex_tet_small : small (encode 3 1 ex_tet).
+Proof. apply smallb_small. vm_compute. reflexivity. Qed.
+Example ex_tet_roundtrip : decode_impl ex_opts (encode 3 1 ex_tet) = ROk ex_tet.
+Proof. vm_compute. reflexivity. Qed.
+Example ex_tet_spec : decode_spec 3 (encode 3 1 ex_tet) = Some ex_tet.
+Proof. vm_compute. reflexivity. Qed.
+Example ex_tet_tetmesh : decode_impl {| o_mesh := MTet; o_check := true; o_bu := false; o_dim := 3 |} (encode 3 1 ex_tet) = ROk ex_tet.
+Proof. vm_compute. reflexivity. Qed.
+
+(* ================================================================================================ C07: no undefined behaviour *)
+
+(* automation for the parts of the reader that cannot reach an unchecked access at all *)
+Ltac nub_step :=
+  match goal with
+  | |- no_ub (Ret _) => apply no_ub_ret
+  | |- no_ub (Fail _ _) => apply no_ub_fail
+  | |- no_ub parse_error => apply no_ub_fail
+  | |- no_ub std_exception => apply no_ub_fail
+  | |- no_ub (state_error _) => apply no_ub_fail
+  | |- no_ub (need _ _) => apply need_no_ub
+  | |- no_ub (rd _ _) => apply rd_no_ub
+  | |- no_ub (rd_u8 _) => apply rd_no_ub
+  | |- no_ub (rd_u16 _) => apply rd_no_ub
+  | |- no_ub (rd_u32 _) => apply rd_no_ub
+  | |- no_ub (rd_u64 _) => apply rd_no_ub
+  | |- no_ub (rd_int _ _) => apply rd_no_ub
+  | |- no_ub (rd_bytes _ _) => apply rd_bytes_no_ub
+  | |- no_ub (rd_enum8 _ _) => apply rd_enum8_no_ub
+  | |- no_ub (rd_vec32 _) => apply rd_vec32_no_ub
+  | |- no_ub (rd_reserved _ _) => apply rd_reserved_no_ub
+  | |- no_ub (rd_span _) => apply rd_span_no_ub
+  | |- no_ub (make_decoder _ _) => apply make_decoder_no_ub
+  | |- no_ub (bind _ _) => apply no_ub_bind; [|intros ? ?]
+  | |- no_ub (if ?c then _ else _) => destruct c
+  | |- no_ub (match ?x with _ => _ end) => destruct x
+  end.
+Ltac nub := repeat nub_step.
+
+Lemma validate_span_no_ub a b c d : no_ub (validate_span a b c d).
+Proof. unfold validate_span. nub. Qed.
+
+Lemma rd_coords_no_ub n : forall enc d, no_ub (rd_coords n enc d).
+Proof. induction n; intros; simpl; nub. apply IHn. Qed.
+
+Lemma rd_positions_no_ub fuel : forall count dim enc d, no_ub (rd_positions fuel count dim enc d).
+Proof.
+  induction fuel; intros; simpl; nub; try apply rd_coords_no_ub; try apply IHfuel.
+Qed.
+
+Lemma read_vertices_chunk_no_ub o h st d : no_ub (read_vertices_chunk o h st d).
+Proof.
+  unfold read_vertices_chunk. nub; try apply validate_span_no_ub; try apply rd_positions_no_ub.
+Qed.
+
+Lemma decode_one_no_ub ty d : no_ub (decode_one ty d).
+Proof. unfold decode_one. destruct ty; nub. Qed.
+
+Lemma decode_n_simple_no_ub fuel : forall ty i cnt d acc, no_ub (decode_n_simple fuel ty i cnt d acc).
+Proof. induction fuel; intros; simpl; nub; try (destruct ty; nub); try apply IHfuel. Qed.
+
+Lemma decode_n_bool_no_ub fuel : forall i cnt d acc, no_ub (decode_n_bool fuel i cnt d acc).
+Proof. induction fuel; intros; simpl; nub; try apply IHfuel. Qed.
+
+Lemma rd_ints_no_ub n : forall enc mk d, (forall v, no_ub (mk v)) -> no_ub (rd_ints n enc mk d).
+Proof. induction n; intros enc mk d Hmk; simpl; nub; try apply Hmk. apply IHn. exact Hmk. Qed.
+
+Lemma read_n_ints_no_ub enc count mk d : (forall v, no_ub (mk v)) -> no_ub (read_n_ints enc count mk d).
+Proof. intros Hmk. unfold read_n_ints. nub. apply rd_ints_no_ub. exact Hmk. Qed.
+
+Lemma mk_handle_no_ub off lim x : no_ub (mk_handle off lim x).
+Proof. unfold mk_handle. nub. Qed.
+
+Lemma rd_edges_no_ub fuel : forall count enc off nvr d, no_ub (rd_edges fuel count enc off nvr d).
+Proof. induction fuel; intros; simpl; nub; try apply IHfuel. Qed.
+
+(* a handle whose C quotient h/2 indexes a container of n elements (h = -1, the invalid handle, lands on index 0) *)
+Definition hok (n : Z) (h : Z) : Prop := -1 <= h < 2 * n /\ 0 < n.
+
+Lemma nth_z_hok {A} (l : list A) h : hok (len l) h -> exists x, nth_z l (Z.quot h 2) = Some x.
+Proof.
+  intros [[H1 H2] H3]. unfold nth_z.
+  assert (Q : 0 <= Z.quot h 2 < len l).
+  { destruct (Z.eq_dec h (-1)) as [->|Hn]; [change (Z.quot (-1) 2) with 0; lia|].
+    rewrite Z.quot_div_nonneg by lia. split; [apply Z.div_pos; lia|apply Z.div_lt_upper_bound; lia]. }
+  destruct (Z.quot h 2 <? 0) eqn:E; [apply Z.ltb_lt in E; lia|].
+  destruct (nth_error l (Z.to_nat (Z.quot h 2))) eqn:E2; [eauto|].
+  apply nth_error_None in E2. unfold len in Q. lia.
+Qed.
+
+Lemma he_verts_no_ub edges h : hok (len edges) h -> no_ub (he_verts edges h).
+Proof. intros H. unfold he_verts. destruct (nth_z_hok edges h H) as [[a b] ->]. nub. Qed.
+
+Lemma hf_halfedges_no_ub faces h : hok (len faces) h -> no_ub (hf_halfedges faces h).
+Proof. intros H. unfold hf_halfedges. destruct (nth_z_hok faces h H) as [x ->]. nub. Qed.
+
+Lemma face_valence_no_ub faces h : hok (len faces) h -> no_ub (face_valence faces h).
+Proof. intros H. unfold face_valence. destruct (nth_z_hok faces h H) as [x ->]. nub. Qed.
+
+Lemma chain_ok_no_ub edges first hes : hok (len edges) first -> Forall (hok (len edges)) hes -> no_ub (chain_ok edges first hes).
+Proof.
+  intros Hf. induction hes as [|h t IH]; intros Hall; [simpl; nub|].
+  inversion Hall as [|? ? Hh Ht]; subst.
+  destruct t as [|h2 t2].
+  - cbn [chain_ok]. nub; apply he_verts_no_ub; assumption.
+  - cbn [chain_ok]. inversion Ht; subst.
+    apply no_ub_bind; [apply he_verts_no_ub; assumption|]. intros a _.
+    apply no_ub_bind; [apply he_verts_no_ub; assumption|]. intros b _.
+    destruct (snd a =? fst b); [apply IH; assumption|nub].
+Qed.
+
+Lemma base_add_face_no_ub edges hes check : Forall (hok (len edges)) hes -> no_ub (base_add_face edges hes check).
+Proof.
+  intros H. unfold base_add_face. destruct check; [|nub]. destruct hes as [|h0 t]; [nub|].
+  apply no_ub_bind; [|intros; nub]. apply chain_ok_no_ub; [inversion H; assumption|exact H].
+Qed.
+
+Lemma mesh_add_face_no_ub o edges hes : Forall (hok (len edges)) hes -> no_ub (mesh_add_face o edges hes).
+Proof. intros H. unfold mesh_add_face. destruct (o_mesh o); nub; apply base_add_face_no_ub; exact H. Qed.
+
+Lemma collect_halfedges_no_ub faces hfs : Forall (hok (len faces)) hfs -> no_ub (collect_halfedges faces hfs).
+Proof.
+  induction 1 as [|h t Hh Ht IH]; simpl; [nub|].
+  apply no_ub_bind; [apply hf_halfedges_no_ub; exact Hh|]. intros a _.
+  apply no_ub_bind; [exact IH|]. intros; nub.
+Qed.
+
+Lemma base_add_cell_no_ub faces hfs check : Forall (hok (len faces)) hfs -> no_ub (base_add_cell faces hfs check).
+Proof.
+  intros H. unfold base_add_cell. destruct check; [|nub]. destruct hfs as [|h0 t]; [nub|].
+  apply no_ub_bind; [apply face_valence_no_ub; inversion H; assumption|]. intros _ _.
+  apply no_ub_bind; [apply collect_halfedges_no_ub; exact H|]. intros; nub.
+Qed.
+
+Lemma all_valence_no_ub faces hfs v : Forall (hok (len faces)) hfs -> no_ub (all_valence faces hfs v).
+Proof.
+  induction 1 as [|h t Hh Ht IH]; simpl; [nub|].
+  apply no_ub_bind; [apply face_valence_no_ub; exact Hh|]. intros n _. destruct (n =? v); [exact IH|nub].
+Qed.
+
+Lemma get_adjacent_no_ub faces hfh heh hfs : Forall (hok (len faces)) hfs -> no_ub (get_adjacent_halfface faces hfh heh hfs).
+Proof.
+  induction 1 as [|h t Hh Ht IH]; simpl; [nub|].
+  destruct (h =? hfh); [exact IH|].
+  apply no_ub_bind; [apply hf_halfedges_no_ub; exact Hh|]. intros hes _.
+  destruct (existsb _ hes); [nub|exact IH].
+Qed.
+
+Lemma get_adjacent_result faces hfh heh hfs a : get_adjacent_halfface faces hfh heh hfs = Ret a -> a = -1 \/ In a hfs.
+Proof.
+  induction hfs as [|h t IH]; simpl; intros H.
+  - inversion H. left; reflexivity.
+  - destruct (h =? hfh).
+    + destruct (IH H); [left|right; right]; assumption.
+    + inv_bind H. destruct (existsb _ a0).
+      * inversion H. right; left; reflexivity.
+      * destruct (IH H); [left|right; right]; assumption.
+Qed.
+
+Lemma hok_minus1 n h : hok n h -> hok n (-1).
+Proof. unfold hok. lia. Qed.
+
+Lemma hok_nthd n l i : Forall (hok n) l -> l <> [] -> hok n (nthd l i).
+Proof.
+  intros H Hne. unfold nthd.
+  destruct (nth_in_or_default i l (-1)) as [Hin | Hd]; [|rewrite Hd].
+  - rewrite Forall_forall in H. apply H. exact Hin.
+  - destruct l as [|x t]; [congruence|]. inversion H; subst. eapply hok_minus1; eassumption.
+Qed.
+
+Lemma order_side_no_ub faces hfs top first4 order hes : Forall (hok (len faces)) hfs ->
+  forall offset, no_ub (order_side faces hfs top first4 order hes offset).
+Proof.
+  intros H. induction hes as [|he t IH]; intros offset; simpl; [nub|].
+  apply no_ub_bind; [apply get_adjacent_no_ub; exact H|]. intros a _.
+  destruct (offset =? -1); [apply IH|].
+  match goal with |- no_ub (if ?c then _ else _) => destruct c end; [apply IH|nub].
+Qed.
+
+Lemma check_halfface_ordering_no_ub faces hfs : Forall (hok (len faces)) hfs -> hfs <> [] ->
+  no_ub (check_halfface_ordering faces hfs).
+Proof.
+  intros H Hne. unfold check_halfface_ordering.
+  apply no_ub_bind; [apply hf_halfedges_no_ub; apply hok_nthd; assumption|]. intros ht _.
+  apply no_ub_bind; [apply hf_halfedges_no_ub; apply hok_nthd; assumption|]. intros hb _.
+  apply no_ub_bind; [apply order_side_no_ub; exact H|]. intros a _.
+  destruct a as [o1|]; [|nub]. destruct (o1 =? -1); [nub|].
+  apply no_ub_bind; [apply order_side_no_ub; exact H|]. intros b _. destruct b; nub.
+Qed.
+
+Lemma upd_nth_forall (P : Z -> Prop) i x l : P x -> Forall P l -> Forall P (upd_nth i x l).
+Proof.
+  intros Hx. revert i. induction l as [|h t IH]; intros i Hl; destruct i; simpl; try constructor; inversion Hl; subst; auto.
+Qed.
+
+Lemma reorder_top_spec faces hfs top : Forall (hok (len faces)) hfs ->
+  forall hes idx acc, Forall (hok (len faces)) acc ->
+  no_ub (reorder_top faces hfs top hes idx acc) /\
+  (forall r, reorder_top faces hfs top hes idx acc = Ret r -> Forall (hok (len faces)) r).
+Proof.
+  intros H. induction hes as [|he t IH]; intros idx acc Hacc; simpl.
+  - split; [nub|]. intros r Hr. inversion Hr; subst. exact Hacc.
+  - split.
+    + apply no_ub_bind; [apply get_adjacent_no_ub; exact H|]. intros a Ha.
+      destruct (a =? -1) eqn:E; [apply IH; exact Hacc|].
+      apply IH. apply upd_nth_forall; [|exact Hacc].
+      apply get_adjacent_result in Ha. destruct Ha as [->|Hin]; [discriminate|]. rewrite Forall_forall in H. apply H; exact Hin.
+    + intros r Hr. inv_bind Hr.
+      destruct (a =? -1) eqn:E; [apply (proj2 (IH idx acc Hacc)); exact Hr|].
+      refine (proj2 (IH _ _ _) r Hr). apply upd_nth_forall; [|exact Hacc].
+      apply get_adjacent_result in Ha. destruct Ha as [->|Hin]; [discriminate|]. rewrite Forall_forall in H. apply H; exact Hin.
+Qed.
+
+Lemma get_adjacent_hok faces hfh heh hfs a : Forall (hok (len faces)) hfs -> hfs <> [] ->
+  get_adjacent_halfface faces hfh heh hfs = Ret a -> hok (len faces) a.
+Proof.
+  intros H Hne Ha. apply get_adjacent_result in Ha. destruct Ha as [->|Hin].
+  - destruct hfs as [|x t]; [congruence|]. inversion H; subst. eapply hok_minus1; eassumption.
+  - rewrite Forall_forall in H. apply H; exact Hin.
+Qed.
+
+Lemma next_halfedge_no_ub faces heh hfh : hok (len faces) hfh -> no_ub (next_halfedge_in_halfface faces heh hfh).
+Proof. intros H. unfold next_halfedge_in_halfface. apply no_ub_bind; [apply hf_halfedges_no_ub; exact H|]. intros; nub. Qed.
+
+Lemma hex_reorder_spec faces hfs : Forall (hok (len faces)) hfs -> hfs <> [] ->
+  (forall hes, hf_halfedges faces (nthd hfs 0) = Ret hes -> hes <> []) ->
+  no_ub (hex_reorder faces hfs) /\ (forall r, hex_reorder faces hfs = Ret (Some r) -> Forall (hok (len faces)) r).
+Proof.
+  intros H Hne Htop. unfold hex_reorder.
+  assert (Ht : hok (len faces) (nthd hfs 0)) by (apply hok_nthd; assumption).
+  assert (Hacc0 : Forall (hok (len faces)) [nthd hfs 0; -1; -1; -1; -1; -1]).
+  { pose proof (hok_minus1 _ _ Ht). repeat (first [apply Forall_nil | apply Forall_cons; [assumption|]]). }
+  split.
+  - apply no_ub_bind; [apply hf_halfedges_no_ub; exact Ht|]. intros hes Hhes.
+    apply no_ub_bind; [apply (proj1 (reorder_top_spec faces hfs (nthd hfs 0) H hes 0%nat _ Hacc0))|]. intros acc Hacc.
+    destruct hes as [|he0 t]; [exfalso; apply (Htop [] Hhes); reflexivity|].
+    apply no_ub_bind; [apply get_adjacent_no_ub; exact H|]. intros hf1 Hhf1.
+    pose proof (get_adjacent_hok _ _ _ _ _ H Hne Hhf1) as Hk1.
+    apply no_ub_bind; [apply next_halfedge_no_ub; exact Hk1|]. intros he2 _.
+    apply no_ub_bind; [apply next_halfedge_no_ub; exact Hk1|]. intros he3 _.
+    apply no_ub_bind; [apply get_adjacent_no_ub; exact H|]. intros hf2 _. nub.
+  - intros r Hr. inv_bind Hr. rename a into hes. inv_bind Hr. rename a into acc.
+    pose proof (proj2 (reorder_top_spec faces hfs (nthd hfs 0) H hes 0%nat _ Hacc0) acc Ha0) as Hacc.
+    destruct hes as [|he0 t]; [discriminate|].
+    inv_bind Hr. rename a into hf1. inv_bind Hr. inv_bind Hr. inv_bind Hr. rename a1 into hf2.
+    destruct (hf2 =? -1); [discriminate|].
+    assert (Er : r = upd_nth 1 hf2 acc) by (inversion Hr; reflexivity). rewrite Er.
+    apply upd_nth_forall; [|exact Hacc].
+    match goal with HH : get_adjacent_halfface faces _ _ hfs = Ret hf2 |- _ => exact (get_adjacent_hok _ _ _ _ _ H Hne HH) end.
+Qed.
+
+Lemma hf_halfedges_valence faces h hes : hf_halfedges faces h = Ret hes -> face_valence faces h = Ret (len hes).
+Proof.
+  unfold hf_halfedges, face_valence. destruct (nth_z faces (Z.quot h 2)); [|discriminate].
+  destruct (Z.even h); intros H; inversion H; subst; [reflexivity|].
+  unfold len. rewrite rev_length, map_length. reflexivity.
+Qed.
+
+Lemma all_valence_true faces hfs v : all_valence faces hfs v = Ret true -> forall h, In h hfs -> face_valence faces h = Ret v.
+Proof.
+  induction hfs as [|x t IH]; simpl; intros H h Hin; [contradiction|].
+  inv_bind H. destruct (a =? v) eqn:E; [|discriminate]. apply Z.eqb_eq in E. subst a.
+  destruct Hin as [->|Hin]; [exact Ha|apply IH; assumption].
+Qed.
+
+Lemma mesh_add_cell_no_ub o faces hfs : Forall (hok (len faces)) hfs -> no_ub (mesh_add_cell o faces hfs).
+Proof.
+  intros H. unfold mesh_add_cell. destruct (o_mesh o).
+  - apply base_add_cell_no_ub; exact H.
+  - destruct (len hfs =? 4); [|nub]. apply no_ub_bind; [apply all_valence_no_ub; exact H|]. intros ok _.
+    destruct ok; [apply base_add_cell_no_ub; exact H|nub].
+  - destruct (len hfs =? 6) eqn:E6; [|nub]. apply Z.eqb_eq in E6.
+    assert (Hne : hfs <> []) by (intros ->; rewrite len_nil in E6; lia).
+    apply no_ub_bind; [apply all_valence_no_ub; exact H|]. intros ok Hok.
+    destruct ok; cbn [negb]; [|nub].
+    destruct (o_check o); cbn [negb]; [|apply base_add_cell_no_ub; exact H].
+    apply no_ub_bind; [apply check_halfface_ordering_no_ub; assumption|]. intros ord _.
+    destruct ord; [apply base_add_cell_no_ub; exact H|].
+    assert (Htop : forall hes, hf_halfedges faces (nthd hfs 0) = Ret hes -> hes <> []).
+    { intros hes Hhes. apply hf_halfedges_valence in Hhes.
+      assert (Hin : In (nthd hfs 0) hfs). { destruct hfs as [|x t]; [congruence|]. left; reflexivity. }
+      rewrite (all_valence_true _ _ _ Hok _ Hin) in Hhes. inversion Hhes as [E]. intros ->. rewrite len_nil in E. lia. }
+    destruct (hex_reorder_spec faces hfs H Hne Htop) as [N1 N2].
+    apply no_ub_bind; [exact N1|]. intros r Hr. destruct r as [hfs'|]; [|nub].
+    apply base_add_cell_no_ub. apply N2. exact Hr.
+Qed.
+
+(* ---- inversion automation for successful runs *)
+Ltac crunch H :=
+  repeat first
+    [ discriminate H
+    | match type of H with
+      | bind _ _ = Ret _ => let a := fresh "a" in let Ha := fresh "Ha" in apply bind_ret_inv in H; destruct H as [a [Ha H]]
+      | (if ?c then _ else _) = Ret _ => let E := fresh "E" in destruct c eqn:E
+      | (match ?x with _ => _ end) = Ret _ => let E := fresh "E" in destruct x eqn:E
+      | (let (_, _) := ?x in _) = Ret _ => destruct x
+      end ].
+
+Lemma rd_ints_forall (P : Z -> Prop) n : forall enc mk d l d',
+  (forall v w, mk v = Ret w -> P w) -> rd_ints n enc mk d = Ret (l, d') -> Forall P l /\ length l = n.
+Proof.
+  induction n; intros enc mk d l d' Hmk H; simpl in H.
+  - inversion H; subst. split; [constructor|reflexivity].
+  - crunch H. inversion H; subst. destruct (IHn _ _ _ _ _ Hmk Ha1) as [I1 I2].
+    split; [constructor; [eapply Hmk; eassumption|exact I1]|simpl; congruence].
+Qed.
+
+Lemma valid_enc_size enc : is_valid_IntEncoding enc = true -> enc <> IntEncoding_None -> elem_size_IntEncoding enc <> 0.
+Proof.
+  unfold is_valid_IntEncoding, elem_size_IntEncoding, IntEncoding_None. intros H Hn.
+  destruct (enc =? 1) eqn:E1; [discriminate|]. destruct (enc =? 2) eqn:E2; [discriminate|].
+  destruct (enc =? 4) eqn:E4; [discriminate|]. destruct (enc =? 0) eqn:E0; [apply Z.eqb_eq in E0; contradiction|]. discriminate.
+Qed.
+
+Lemma read_n_ints_forall (P : Z -> Prop) enc count mk d l d' :
+  (forall v w, mk v = Ret w -> P w) -> read_n_ints enc count mk d = Ret (l, d') ->
+  Forall P l /\ (elem_size_IntEncoding enc <> 0 -> count <= len l).
+Proof.
+  intros Hmk H. unfold read_n_ints in H. crunch H.
+  - inversion H; subst. split; [constructor|]. intros Hs. apply Z.eqb_eq in E1. contradiction.
+  - destruct (rd_ints_forall P _ _ _ _ _ _ Hmk H) as [I1 I2]. split; [exact I1|]. intros _. unfold len. lia.
+Qed.
+
+Lemma mk_handle_hok off n x w : mk_handle off (2 * n) x = Ret w -> hok n w.
+Proof.
+  intros H. apply mk_handle_ok in H. destruct H as [H1 ->].
+  assert (0 <= wrap64 (x + off)) by (unfold wrap64; apply Z.mod_pos_bound; unfold two64; lia).
+  unfold hok, from_unsigned. destruct (wrap64 (x + off) <=? int_max); lia.
+Qed.
+
+Lemma rd_edges_len fuel : forall count enc off nvr d l d', rd_edges fuel count enc off nvr d = Ret (l, d') -> count <= len l.
+Proof.
+  induction fuel; intros count enc off nvr d l d' H; simpl in H.
+  - crunch H. inversion H; subst. apply Z.leb_le in E. rewrite len_nil. lia.
+  - crunch H.
+    + inversion H; subst. apply Z.leb_le in E. rewrite len_nil. lia.
+    + inversion H; subst. apply IHfuel in Ha1. rewrite len_cons. lia.
+Qed.
+
+Lemma rd_items_fixed_spec (P : list Z -> Prop) fuel : forall count valence enc mk add acc d r d',
+  (forall hs a, P hs -> no_ub (add hs a)) ->
+  (forall v, no_ub (mk v)) ->
+  (forall d1 hs d2, read_n_ints enc valence mk d1 = Ret (hs, d2) -> P hs) ->
+  no_ub (rd_items_fixed fuel count valence enc mk add acc d) /\
+  (rd_items_fixed fuel count valence enc mk add acc d = Ret (r, d') -> len acc + count <= len r).
+Proof.
+  induction fuel; intros count valence enc mk add acc d r d' Hadd Hmk HP; simpl.
+  - split; [nub|]. intros H. crunch H. inversion H; subst. apply Z.leb_le in E. lia.
+  - split.
+    + destruct (count <=? 0); [nub|].
+      apply no_ub_bind; [apply read_n_ints_no_ub; exact Hmk|]. intros [hs d1] Hx.
+      apply no_ub_bind; [apply Hadd; eapply HP; exact Hx|]. intros res _.
+      destruct res as [stored|]; [|nub].
+      apply (IHfuel (count - 1) valence enc mk add (acc ++ [stored]) d1 r d' Hadd Hmk HP).
+    + intros H. crunch H.
+      * inversion H; subst. apply Z.leb_le in E. lia.
+      * match type of H with rd_items_fixed _ _ _ _ _ _ ?acc' ?dd = _ =>
+          destruct (IHfuel (count - 1) valence enc mk add acc' dd r d' Hadd Hmk HP) as [_ I] end.
+        specialize (I H). rewrite len_app, len_cons, len_nil in I. lia.
+Qed.
+
+Lemma rd_items_var_spec (P : list Z -> Prop) vals : forall enc mk add acc d r d',
+  (forall hs a, P hs -> no_ub (add hs a)) ->
+  (forall v, no_ub (mk v)) ->
+  (forall d1 v hs d2, read_n_ints enc v mk d1 = Ret (hs, d2) -> P hs) ->
+  no_ub (rd_items_var vals enc mk add acc d) /\
+  (rd_items_var vals enc mk add acc d = Ret (r, d') -> len acc + len vals <= len r).
+Proof.
+  induction vals as [|v t IH]; intros enc mk add acc d r d' Hadd Hmk HP; simpl.
+  - split; [nub|]. intros H. inversion H; subst. rewrite len_nil. lia.
+  - split.
+    + apply no_ub_bind; [apply read_n_ints_no_ub; exact Hmk|]. intros [hs d1] Hx.
+      apply no_ub_bind; [apply Hadd; eapply HP; exact Hx|]. intros res _.
+      destruct res as [stored|]; [|nub].
+      apply (IH enc mk add (acc ++ [stored]) d1 r d' Hadd Hmk HP).
+    + intros H. crunch H.
+      match type of H with rd_items_var _ _ _ _ ?acc' ?dd = _ =>
+        destruct (IH enc mk add acc' dd r d' Hadd Hmk HP) as [_ I] end.
+      specialize (I H). rewrite len_app, len_cons, len_nil in I. rewrite len_cons. lia.
+Qed.
+
+Definition inv_topo (st : rst) : Prop := r_ner st <= len (r_edges st) /\ r_nfr st <= len (r_faces st).
+
+Lemma hok_handles_faces o st off : inv_topo st ->
+  (forall hs a, Forall (hok (len (r_edges st))) hs -> no_ub ((fun hs (_ : list (list Z)) => mesh_add_face o (r_edges st) hs) hs a)) /\
+  (forall enc v d1 hs d2, read_n_ints enc v (mk_handle off (2 * r_ner st)) d1 = Ret (hs, d2) -> Forall (hok (len (r_edges st))) hs).
+Proof.
+  intros [I1 I2]. split.
+  - intros hs a H. apply mesh_add_face_no_ub. exact H.
+  - intros enc v d1 hs d2 H.
+    apply (read_n_ints_forall (hok (len (r_edges st)))) in H; [apply H|].
+    intros x w Hw. apply mk_handle_hok in Hw. unfold hok in *. lia.
+Qed.
+
+Lemma hok_handles_cells o st off : inv_topo st ->
+  (forall hs a, Forall (hok (len (r_faces st))) hs -> no_ub ((fun hs (_ : list (list Z)) => mesh_add_cell o (r_faces st) hs) hs a)) /\
+  (forall enc v d1 hs d2, read_n_ints enc v (mk_handle off (2 * r_nfr st)) d1 = Ret (hs, d2) -> Forall (hok (len (r_faces st))) hs).
+Proof.
+  intros [I1 I2]. split.
+  - intros hs a H. apply mesh_add_cell_no_ub. exact H.
+  - intros enc v d1 hs d2 H.
+    apply (read_n_ints_forall (hok (len (r_faces st)))) in H; [apply H|].
+    intros x w Hw. apply mk_handle_hok in Hw. unfold hok in *. lia.
+Qed.
+
+Lemma read_topo_chunk_no_ub o h st d : inv_topo st -> no_ub (read_topo_chunk o h st d).
+Proof.
+  intros Hinv. unfold read_topo_chunk.
+  nub; try apply validate_span_no_ub; try apply rd_edges_no_ub;
+    try (apply read_n_ints_no_ub; intros; nub).
+  all: match goal with
+  | Hi : inv_topo ?s |- no_ub (rd_items_var ?l ?enc (mk_handle ?off (2 * r_ner ?s)) _ [] ?d) =>
+      destruct (hok_handles_faces o s off Hi) as [A B];
+      apply (proj1 (rd_items_var_spec (Forall (hok (len (r_edges s)))) l enc _ _ [] d [] [] A (mk_handle_no_ub _ _) (fun d1 v hs d2 => B enc v d1 hs d2)))
+  | Hi : inv_topo ?s |- no_ub (rd_items_fixed ?f ?c ?val ?enc (mk_handle ?off (2 * r_ner ?s)) _ [] ?d) =>
+      destruct (hok_handles_faces o s off Hi) as [A B];
+      apply (proj1 (rd_items_fixed_spec (Forall (hok (len (r_edges s)))) f c val enc _ _ [] d [] [] A (mk_handle_no_ub _ _) (fun d1 hs d2 => B enc val d1 hs d2)))
+  | Hi : inv_topo ?s |- no_ub (rd_items_var ?l ?enc (mk_handle ?off (2 * r_nfr ?s)) _ [] ?d) =>
+      destruct (hok_handles_cells o s off Hi) as [A B];
+      apply (proj1 (rd_items_var_spec (Forall (hok (len (r_faces s)))) l enc _ _ [] d [] [] A (mk_handle_no_ub _ _) (fun d1 v hs d2 => B enc v d1 hs d2)))
+  | Hi : inv_topo ?s |- no_ub (rd_items_fixed ?f ?c ?val ?enc (mk_handle ?off (2 * r_nfr ?s)) _ [] ?d) =>
+      destruct (hok_handles_cells o s off Hi) as [A B];
+      apply (proj1 (rd_items_fixed_spec (Forall (hok (len (r_faces s)))) f c val enc _ _ [] d [] [] A (mk_handle_no_ub _ _) (fun d1 hs d2 => B enc val d1 hs d2)))
+  end.
+Qed.
+
+Lemma rd_items_fixed_len fuel : forall count valence enc mk add acc d r d',
+  rd_items_fixed fuel count valence enc mk add acc d = Ret (r, d') -> len acc + count <= len r.
+Proof.
+  induction fuel; intros count valence enc mk add acc d r d' H; simpl in H; crunch H.
+  - inversion H; subst. apply Z.leb_le in E. lia.
+  - inversion H; subst. apply Z.leb_le in E. lia.
+  - apply IHfuel in H. rewrite len_app, len_cons, len_nil in H. lia.
+Qed.
+
+Lemma rd_items_var_len vals : forall enc mk add acc d r d',
+  rd_items_var vals enc mk add acc d = Ret (r, d') -> len acc + len vals <= len r.
+Proof.
+  induction vals as [|v t IH]; intros enc mk add acc d r d' H; simpl in H.
+  - inversion H; subst. rewrite len_nil. lia.
+  - crunch H. apply IH in H. rewrite len_app, len_cons, len_nil in H. rewrite len_cons. lia.
+Qed.
+
+Ltac crunch_any :=
+  repeat match goal with
+  | H : bind _ _ = Ret _ |- _ => let a := fresh "a" in let Ha := fresh "Ha" in apply bind_ret_inv in H; destruct H as [a [Ha H]]
+  | H : (if ?c then _ else _) = Ret _ |- _ => let E := fresh "E" in destruct c eqn:E
+  | H : (match ?x with _ => _ end) = Ret _ |- _ => let E := fresh "E" in destruct x eqn:E
+  | H : state_error _ = Ret _ |- _ => discriminate H
+  | H : parse_error = Ret _ |- _ => discriminate H
+  | H : std_exception = Ret _ |- _ => discriminate H
+  | H : Fail _ _ = Ret _ |- _ => discriminate H
+  | H : Ub _ = Ret _ |- _ => discriminate H
+  | H : Ret (_, _) = Ret _ |- _ => inversion H; subst; clear H
+  end.
+
+Lemma read_topo_chunk_inv o h st d st' d' :
+  read_topo_chunk o h st d = Ret (st', d') -> inv_topo st ->
+  inv_topo st' /\ r_stor st' = r_stor st /\ r_props st' = r_props st.
+Proof.
+  unfold read_topo_chunk. intros H [I1 I2].
+  crunch_any; unfold inv_topo; cbn [add_edges add_faces add_cells r_ner r_nfr r_edges r_faces r_stor r_props];
+    rewrite ?len_app.
+  all: try match goal with HH : rd_edges _ _ _ _ _ _ = Ret _ |- _ => apply rd_edges_len in HH end.
+  all: try match goal with HH : rd_items_fixed _ _ _ _ _ _ _ _ = Ret _ |- _ => apply rd_items_fixed_len in HH; rewrite len_nil in HH end.
+  all: try match goal with HH : rd_items_var _ _ _ _ _ _ = Ret _ |- _ => apply rd_items_var_len in HH; rewrite len_nil in HH end.
+  all: try match goal with HH : read_n_ints ?enc ?count (fun x => Ret x) _ = Ret _, HE : (?enc =? IntEncoding_None) = false, HV : rd_enum8 is_valid_IntEncoding _ = Ret (?enc, _) |- _ =>
+         apply (read_n_ints_forall (fun _ => True)) in HH; [|intros; exact I]; destruct HH as [_ HH];
+         apply rd_enum8_inv in HV; destruct HV as [_ HV]; apply Z.eqb_neq in HE; specialize (HH (valid_enc_size _ HV HE)) end.
+  all: try (repeat split; try reflexivity; lia).
+Qed.
+
+(* ---- properties: every props_ entry with a decoder points at an existing storage *)
+Definition entry_ok (n : nat) (e : option (Z * nat)) : Prop := match e with Some (_, i) => (i < n)%nat | None => True end.
+Definition inv_props (st : rst) : Prop := Forall (entry_ok (length (r_stor st))) (r_props st).
+
+Lemma entry_ok_mono n m e : (n <= m)%nat -> entry_ok n e -> entry_ok m e.
+Proof. destruct e as [[? i]|]; simpl; intros; [lia|exact I]. Qed.
+
+Lemma find_storage_lt l : forall i ent name tname j, find_storage i l ent name tname = Some j -> (j < i + length l)%nat.
+Proof.
+  induction l as [|s t IH]; intros i ent name tname j H; simpl in H; [discriminate|].
+  destruct (storage_key_eqb ent name tname s).
+  - inversion H; subst. simpl. lia.
+  - apply IH in H. simpl. lia.
+Qed.
+
+Lemma read_propdir_entries_spec fuel : forall stor props d,
+  (length d <= fuel)%nat -> Forall (entry_ok (length stor)) props ->
+  no_ub (read_propdir_entries fuel stor props d) /\
+  (forall stor' props', read_propdir_entries fuel stor props d = Ret (stor', props') -> Forall (entry_ok (length stor')) props').
+Proof.
+  induction fuel as [|f IH]; intros stor props d Hf Hp.
+  - destruct d; [|simpl in Hf; lia]. simpl. split; [nub|]. intros s' p' H. inversion H; subst. exact Hp.
+  - destruct d as [|b0 dt]; [simpl; split; [nub|]; intros s' p' H; inversion H; subst; exact Hp|].
+    cbn [read_propdir_entries]. set (d := b0 :: dt) in *.
+    (* the common part: after one entry the remaining decoder is strictly shorter *)
+    assert (Step : forall ent d1 name d2 tname d3 sdef d4,
+               rd_enum8 is_valid_PropertyEntity d = Ret (ent, d1) -> rd_vec32 d1 = Ret (name, d2) ->
+               rd_vec32 d2 = Ret (tname, d3) -> rd_vec32 d3 = Ret (sdef, d4) -> (length d4 <= f)%nat).
+    { intros ent d1 name d2 tname d3 sdef d4 H1 H2 H3 H4.
+      apply rd_enum8_inv in H1. destruct H1 as [H1 _]. apply rd_len in H1.
+      apply rd_vec32_len_lt in H2. apply rd_vec32_len_lt in H3. apply rd_vec32_len_lt in H4. unfold len in *. lia. }
+    split.
+    + apply no_ub_bind; [apply need_no_ub|]. intros _ _.
+      apply no_ub_bind; [apply rd_enum8_no_ub|]. intros [ent d1] H1.
+      apply no_ub_bind; [apply rd_vec32_no_ub|]. intros [name d2] H2.
+      apply no_ub_bind; [apply rd_vec32_no_ub|]. intros [tname d3] H3.
+      apply no_ub_bind; [apply rd_vec32_no_ub|]. intros [sdef d4] H4.
+      pose proof (Step _ _ _ _ _ _ _ _ H1 H2 H3 H4) as Hl.
+      destruct (codec_of tname) as [ty|].
+      * apply no_ub_bind; [apply decode_one_no_ub|]. intros def _.
+        destruct (find_storage 0 stor ent name tname) as [i|] eqn:Ef.
+        -- apply IH; [exact Hl|]. apply Forall_app. split; [exact Hp|]. constructor; [|constructor].
+           apply find_storage_lt in Ef. simpl in *. lia.
+        -- destruct (len name =? 0); [nub|]. apply IH; [exact Hl|].
+           rewrite app_length. cbn [length]. apply Forall_app. split.
+           ++ eapply Forall_impl; [|exact Hp]. intros e He. eapply entry_ok_mono; [|exact He]. lia.
+           ++ constructor; [simpl; lia|constructor].
+      * apply IH; [exact Hl|]. apply Forall_app. split; [exact Hp|]. constructor; [exact I|constructor].
+    + intros stor' props' H. crunch_any.
+      all: match goal with
+           | Hr : read_propdir_entries _ ?s ?p ?dd = Ret (_, _) |- _ =>
+               refine (proj2 (IH s p dd _ _) _ _ Hr);
+               [ eapply Step; eassumption | ]
+           end.
+      * apply Forall_app. split; [exact Hp|]. constructor; [|constructor].
+        match goal with Hf' : find_storage 0 stor _ _ _ = Some _ |- _ => apply find_storage_lt in Hf' end. simpl in *. lia.
+      * rewrite app_length. cbn [length]. apply Forall_app. split.
+        -- eapply Forall_impl; [|exact Hp]. intros e He. eapply entry_ok_mono; [|exact He]. lia.
+        -- constructor; [simpl; lia|constructor].
+      * apply Forall_app. split; [exact Hp|]. constructor; [exact I|constructor].
+Qed.
+
+Definition Inv (st : rst) : Prop := inv_topo st /\ inv_props st.
+
+Lemma read_propdir_chunk_spec st d : Inv st ->
+  no_ub (read_propdir_chunk st d) /\ (forall st' d', read_propdir_chunk st d = Ret (st', d') -> Inv st').
+Proof.
+  intros [It Ip]. unfold read_propdir_chunk. destruct (r_props st) eqn:Ep; [|split; [nub|intros ? ? H; discriminate H]].
+  destruct (read_propdir_entries_spec (length d) (r_stor st) [] d (le_n _) (Forall_nil _)) as [N S].
+  split.
+  - apply no_ub_bind; [exact N|]. intros [stor props] _. nub.
+  - intros st' d' H. crunch_any. split.
+    + exact It.
+    + unfold inv_props. cbn [set_props r_stor r_props]. eapply S. eassumption.
+Qed.
+
+Lemma upd_storage_length i w l : length (upd_storage i w l) = length l.
+Proof. revert i; induction l as [|s t IH]; intros i; destruct i; simpl; auto. Qed.
+
+Lemma nth_entry_ok n props idx ent si : Forall (entry_ok n) props -> nth idx props None = Some (ent, si) -> (si < n)%nat.
+Proof.
+  intros H E. destruct (nth_in_or_default idx props None) as [Hin|Hd]; [|rewrite Hd in E; discriminate].
+  rewrite Forall_forall in H. specialize (H _ Hin). rewrite E in H. exact H.
+Qed.
+
+Lemma read_prop_chunk_spec h st d : Inv st ->
+  no_ub (read_prop_chunk h st d) /\ (forall st' d', read_prop_chunk h st d = Ret (st', d') -> Inv st').
+Proof.
+  intros [It Ip]. unfold read_prop_chunk. split.
+  - apply no_ub_bind; [apply need_no_ub|]. intros _ _.
+    apply no_ub_bind; [apply rd_span_no_ub|]. intros [[first count] d1] _.
+    apply no_ub_bind; [apply rd_no_ub|]. intros [idx d2] _.
+    destruct (len (r_props st) <=? idx); [nub|].
+    destruct (nth (Z.to_nat idx) (r_props st) None) as [[ent si]|] eqn:En; [|nub].
+    destruct (count =? 0); [nub|].
+    match goal with |- no_ub (if ?c then _ else _) => destruct c end; [nub|].
+    match goal with |- no_ub (if ?c then _ else _) => destruct c end; [nub|].
+    pose proof (nth_entry_ok _ _ _ _ _ Ip En) as Hlt.
+    destruct (nth_error (r_stor st) si) as [s|] eqn:Es; [|apply nth_error_None in Es; lia].
+    apply no_ub_bind; [|intros [w d3] _; nub].
+    destruct (st_ty s); nub; try apply decode_n_bool_no_ub; try apply decode_n_simple_no_ub.
+  - intros st' d' H. crunch_any; try (split; assumption).
+    all: split; [exact It|]; unfold inv_props; cbn [set_props r_stor r_props]; rewrite upd_storage_length; exact Ip.
+Qed.
+
+Lemma read_vertices_chunk_inv o h st d st' d' : read_vertices_chunk o h st d = Ret (st', d') -> Inv st -> Inv st'.
+Proof.
+  unfold read_vertices_chunk. intros H [It Ip]. crunch_any; split; assumption.
+Qed.
+
+(* one chunk: no unchecked access, and the invariant is kept *)
+Lemma read_chunk_spec o h st eof s : Inv st ->
+  no_ub (read_chunk o h st eof s) /\
+  (forall st' eof' s', read_chunk o h st eof s = Ret (st', eof', s') -> Inv st').
+Proof.
+  intros HI. unfold read_chunk. split.
+  - nub; try apply read_vertices_chunk_no_ub; try (apply read_topo_chunk_no_ub; apply HI);
+      try (apply (proj1 (read_propdir_chunk_spec _ _ HI))); try (apply (proj1 (read_prop_chunk_spec _ _ _ HI))).
+  - intros st' eof' s' H. crunch_any; try exact HI.
+    all: try (match goal with HH : read_propdir_chunk _ _ = Ret _ |- _ => exact (proj2 (read_propdir_chunk_spec _ _ HI) _ _ HH) end).
+    all: try (match goal with HH : read_prop_chunk _ _ _ = Ret _ |- _ => exact (proj2 (read_prop_chunk_spec _ _ _ HI) _ _ HH) end).
+    all: try (match goal with HH : read_vertices_chunk _ _ _ _ = Ret _ |- _ => exact (read_vertices_chunk_inv _ _ _ _ _ _ HH HI) end).
+    all: try (match goal with HH : read_topo_chunk _ _ _ _ = Ret _ |- _ =>
+               destruct HI as [It Ip]; destruct (read_topo_chunk_inv _ _ _ _ _ _ HH It) as [A [B C]];
+               split; [exact A|unfold inv_props; rewrite B, C; exact Ip] end).
+Qed.
+
+Lemma chunk_loop_no_ub fuel : forall o h st eof s,
+  bytes_ok (s_bytes s) -> (length (s_bytes s) <= fuel)%nat -> Inv st -> no_ub (chunk_loop fuel o h st eof s).
+Proof.
+  induction fuel as [|f IH]; intros o h st eof s Hok Hf HI; simpl.
+  - destruct (remaining_bytes s <=? 0) eqn:E; [nub|].
+    unfold remaining_bytes, len in E. apply Z.leb_gt in E. lia.
+  - destruct (remaining_bytes s <=? 0); [nub|].
+    destruct (read_chunk_spec o h st eof s HI) as [N P].
+    apply no_ub_bind; [exact N|]. intros [[st1 eof1] s1] Hx.
+    pose proof (read_chunk_frame _ _ _ _ _ _ _ _ Hok Hx) as F. cbv zeta in F.
+    destruct F as [F1 [F2 [F3 [F4 _]]]].
+    apply IH.
+    + rewrite F4. apply bytes_ok_skipn. exact Hok.
+    + assert (L : len (s_bytes s1) = len (s_bytes s) - chunk_len (s_bytes s)).
+      { rewrite F4, len_skipn. rewrite Z2Nat.id by lia. lia. }
+      unfold len in *. lia.
+    + eapply P. exact Hx.
+Qed.
+
+Lemma init_inv : Inv init_rst.
+Proof. split; [split; cbn [init_rst r_ner r_nfr r_edges r_faces]; change (len (@nil (Z * Z))) with 0; change (len (@nil (list Z))) with 0; lia|constructor]. Qed.
+
+(* C07_total: on any byte string, in any reader configuration, the reader never makes the kernel index out of range and the
+   chunk loop never runs out of fuel *)
+Theorem decode_never_ub o bytes w : bytes_ok bytes -> decode_impl o bytes <> RUB w.
+Proof.
+  intros Hok. unfold decode_impl, decode_stream.
+  destruct (read_header _) as [[h ok] s1] eqn:Eh.
+  destruct (negb (compatible o h)); [discriminate|].
+  destruct ok; cbn [negb]; [|discriminate].
+  apply read_header_inv in Eh; [|reflexivity]. cbn [s_bytes s_avail] in Eh. destruct Eh as [_ [Hb1 _]].
+  assert (Hok1 : bytes_ok (s_bytes s1)) by (rewrite Hb1; apply bytes_ok_skipn; exact Hok).
+  pose proof (chunk_loop_no_ub (length (s_bytes s1)) o h init_rst false s1 Hok1 (le_n _) init_inv) as N.
+  destruct (chunk_loop _ o h init_rst false s1) as [[st eof]|r0 st|w0] eqn:EL.
+  - destruct (negb eof); [discriminate|]. match goal with |- (if ?c then _ else _) <> _ => destruct c end; discriminate.
+  - discriminate.
+  - exfalso. apply (N w0). reflexivity.
+Qed.
+
+Theorem decode_failing_never_ub o k bytes w : bytes_ok bytes -> decode_impl_failing o k bytes <> RUB w.
+Proof.
+  intros Hok. unfold decode_impl_failing, decode_stream.
+  destruct (read_header _) as [[h ok] s1] eqn:Eh.
+  destruct (negb (compatible o h)); [discriminate|].
+  destruct ok; cbn [negb]; [|discriminate].
+  apply read_header_inv in Eh; [|reflexivity]. cbn [s_bytes s_avail] in Eh. destruct Eh as [_ [Hb1 _]].
+  assert (Hok1 : bytes_ok (s_bytes s1)) by (rewrite Hb1; apply bytes_ok_skipn; exact Hok).
+  pose proof (chunk_loop_no_ub (length (s_bytes s1)) o h init_rst false s1 Hok1 (le_n _) init_inv) as N.
+  destruct (chunk_loop _ o h init_rst false s1) as [[st eof]|r0 st|w0] eqn:EL.
+  - destruct (negb eof); [discriminate|]. match goal with |- (if ?c then _ else _) <> _ => destruct c end; discriminate.
+  - discriminate.
+  - exfalso. apply (N w0). reflexivity.
+Qed.
+
+(* ================================================================================================ C07: properties are sized *)
+
+Lemma zseq_length fuel : forall i, length (zseq fuel i) = fuel.
+Proof. induction fuel; intros; simpl; auto. Qed.
+
+Lemma storage_values_len s c : len (storage_values s c) = Z.max 0 c.
+Proof. unfold storage_values, len. rewrite map_length, zseq_length. lia. Qed.
+
+Lemma result_ent_count o h st ent : ent_count (result_mesh o h st) ent = cur_count h st ent.
+Proof. reflexivity. Qed.
+
+Lemma read_file_header_nv d h ok : bytes_ok d -> read_file_header d = (h, ok) -> 0 <= h_nv h.
+Proof.
+  intros Hd. unfold read_file_header.
+  repeat match goal with |- (if ?c then _ else _) = _ -> _ => destruct c end; intros H; inversion H; subst; cbn [h_nv zero_hdr]; try lia.
+  pose proof (le_decode_field_range 8 16 d Hd) as R. exact (proj1 R).
+Qed.
+
+(* every property of a mesh that was read with result Ok has exactly one value per entity of its kind *)
+Theorem ok_props_sized o bytes m : bytes_ok bytes -> decode_impl o bytes = ROk m ->
+  Forall (fun p => len (p_vals p) = ent_count m (p_ent p)) (m_props m).
+Proof.
+  intros Hok. unfold decode_impl, decode_stream.
+  destruct (read_header _) as [[h ok] s1] eqn:Eh.
+  destruct (negb (compatible o h)); [discriminate|].
+  destruct ok; cbn [negb]; [|discriminate].
+  pose proof (read_header_decoder _ _ _ Eh) as Hd. cbn [s_bytes] in Hd.
+  apply read_file_header_nv in Hd; [|apply bytes_ok_firstn; exact Hok].
+  destruct (chunk_loop _ o h init_rst false s1) as [[st eof]|r0 st|w0]; [|discriminate|discriminate].
+  destruct (negb eof); [discriminate|]. match goal with |- (if ?c then _ else _) = _ -> _ => destruct c end; [discriminate|].
+  intros H. inversion H; subst; clear H.
+  apply Forall_forall. intros p Hp. cbn [result_mesh m_props] in Hp. apply in_map_iff in Hp. destruct Hp as [s [<- _]].
+  cbn [p_vals p_ent]. rewrite storage_values_len, result_ent_count.
+  unfold cur_count. pose proof (len_nonneg (r_edges st)). pose proof (len_nonneg (r_faces st)). pose proof (len_nonneg (r_cells st)).
+  repeat match goal with |- context [if ?c then _ else _] => destruct c end; lia.
+Qed.
+
+(* ================================================================================================ C06: codecs *)
+
+Lemma firstn_len_all {A} (l : list A) : firstn (Z.to_nat (len l)) l = l.
+Proof. unfold len. rewrite Nat2Z.id. apply firstn_all. Qed.
+
+(* Codec::decode_one (Codec::encode_one v) = v for every registered property codec and every value of its type *)
+Theorem codec_roundtrip ty v : value_okb ty v = true -> decode_one ty (encode_value ty v) = Ret v.
+Proof.
+  unfold value_okb. intros H. apply andb_true_iff in H. destruct H as [Hb H].
+  destruct ty as [|n|]; cbn [encode_value decode_one].
+  - destruct v as [|b [|? ?]]; try discriminate. apply orb_true_iff in H.
+    unfold rd_u8, rd. cbn [len length Z.of_nat]. cbn. destruct H as [H|H]; apply Z.eqb_eq in H; subst; reflexivity.
+  - apply Z.eqb_eq in H. unfold rd_bytes. rewrite H. rewrite Z.ltb_irrefl. cbn [bind].
+    rewrite <- H. rewrite firstn_len_all. reflexivity.
+  - apply Z.ltb_lt in H. unfold rd_vec32, rd_u32, rd.
+    assert (L4 : length (enc_u32 (len v)) = 4%nat) by apply le_encode_length.
+    rewrite len_app. unfold len at 1. rewrite L4.
+    pose proof (len_nonneg v).
+    destruct (Z.of_nat 4 + len v <? Z.of_nat 4) eqn:E; [apply Z.ltb_lt in E; lia|].
+    cbn [bind]. rewrite firstn_exact by exact L4. rewrite skipn_exact by exact L4.
+    unfold enc_u32. rewrite le_decode_encode by (change (256 ^ Z.of_nat 4) with two32; lia).
+    unfold rd_bytes. rewrite Z.ltb_irrefl. cbn [bind]. rewrite firstn_len_all. reflexivity.
+Qed.
+
+(* a mesh with pending deletions is refused and nothing is written *)
+Lemma pending_refused dim topo m k : write_result true dim topo m k = (WError, []).
+Proof. reflexivity. Qed.
+
+(* topology type detection (TopologyType.hh) *)
+Lemma detect_topo_classes m : detect_topo 1 m = TopoType_Tetrahedral /\ detect_topo 2 m = TopoType_Hexahedral.
+Proof. split; reflexivity. Qed.
+Lemma detect_topo_poly m : detect_topo 0 m =
+  if mesh_is_tet m then TopoType_Tetrahedral else if mesh_is_hex m then TopoType_Hexahedral else TopoType_Polyhedral.
+Proof. reflexivity. Qed.
+
+(* two more concrete meshes: a hexahedron (read into a hexahedral mesh with the topology check on, i.e. through
+   check_halfface_ordering) and a mixed-valence mesh with variable valence chunks *)
+Definition ex_hex : meshfile :=
+  {| m_nv := 8; m_pos := repeat [0; 0; 0] 8;
+     m_edges := [(3, 2); (2, 1); (1, 0); (0, 3); (7, 6); (6, 5); (5, 4); (4, 7); (2, 6); (7, 1); (5, 3); (0, 4)];
+     m_faces := [[0; 2; 4; 6]; [8; 10; 12; 14]; [3; 16; 9; 18]; [13; 20; 7; 22]; [19; 15; 23; 5]; [1; 21; 11; 17]];
+     m_cells := [[0; 2; 4; 6; 8; 10]];
+     m_props := [] |}.
+Example ex_hex_roundtrip :
+  wf_file 3 ex_hex /\
+  decode_impl {| o_mesh := MHex; o_check := true; o_bu := true; o_dim := 3 |} (encode 3 2 ex_hex) = ROk ex_hex /\
+  decode_spec 3 (encode 3 2 ex_hex) = Some ex_hex.
+Proof. vm_compute. repeat split; reflexivity. Qed.
+
+Definition ex_mixed : meshfile :=
+  {| m_nv := 3; m_pos := [[1; 2; 3]; [4; 5; 6]; [18446744073709551615; 0; 9223372036854775808]];
+     m_edges := [(0, 1); (1, 2); (2, 0)];
+     m_faces := [[0; 2; 4]; [0; 1]; [2]];
+     m_cells := [[]; [0; 3]; []];
+     m_props := [ {| p_ent := 2; p_name := [102]; p_tname := bytes_of_string "3f"; p_def := repeat 0 12;
+                     p_vals := [repeat 1 12; repeat 255 12; repeat 7 12] |} ] |}.
+Example ex_mixed_roundtrip :
+  wf_file 3 ex_mixed /\
+  decode_impl {| o_mesh := MPoly; o_check := false; o_bu := false; o_dim := 3 |} (encode 3 0 ex_mixed) = ROk ex_mixed /\
+  decode_spec 3 (encode 3 0 ex_mixed) = Some ex_mixed.
+Proof. vm_compute. repeat split; reflexivity. Qed.
